@@ -1,7 +1,7 @@
 #!/bin/sh
 # Usage: ./check.sh <Cxx> quick|thorough      run the check of one property
 #        ./check.sh replay <file>             re-execute a replay file
-#        ./check.sh selftest <what>           determinism / probes self-tests
+#        ./check.sh selftest <what>           determinism / probes / replayfuzz self-tests
 # Rebuilds the simulator (and with it futures-intrusive from /repo's working tree, hooks on)
 # before every invocation. Exit: 0 held / 1 violation / 2 harness or build error.
 ROOT="$(cd "$(dirname "$0")" && pwd)"
